@@ -523,4 +523,64 @@ mod proofs {
         std::mem::forget(st);
         std::mem::forget(s);
     }
+
+    // ------------------------------------------------------------------ SETTINGS from the peer (C02, C14, C16)
+
+    // apply_remote_settings with ONE stream in the store (bounded: the body loops over all streams).
+    // RFC 9113 6.9.2: when INITIAL_WINDOW_SIZE changes by delta, every stream window the sender maintains
+    // moves by exactly delta (possibly below zero).  A stream that can never emit DATA again (send half
+    // closed AND nothing buffered) may be skipped; every other stream must be adjusted.  Capacity that
+    // now exceeds the stream window goes back to the pool (conservation), so that assigned <= window+.
+    // @harness id=send_apply_remote_settings props=C02,C14,C16,C08 kind=bounded bound=streams=1 tier=quick fn=Send::apply_remote_settings timeout=900
+    #[kani::proof]
+    #[kani::unwind(3)]
+    fn send_apply_remote_settings() {
+        let (mut store, key, mut s) = world(any_state_light(), 1);
+        let mut counts = any_counts(any_peer());
+        let mut buffer: Buffer<PFrame> = Buffer::new();
+        {
+            let st = peek_mut(&mut store, key).unwrap();
+            kani::assume(wf_send(st));
+            st.is_pending_push = false;
+            kani::assume(st.ref_count > 0);
+        }
+        let (w0, av0, can_still_send, a0) = {
+            let st = peek(&store, key).unwrap();
+            (raw(&st.send_flow).0, raw(&st.send_flow).1, !(st.state.is_send_closed() && st.buffered_send_data == 0), abs(&st.state))
+        };
+        let (cw0, ca0) = prio_flow(send_prioritize(&s));
+        kani::assume(ca0 as i64 + av0 as i64 <= cw0 as i64); // I-send-pool
+        let old = s.init_window_sz();
+        let val: u32 = kani::any();
+        kani::assume(val <= MAX_WINDOW_SIZE); // Settings::load rejects larger values
+        let lower: bool = kani::any();
+        kani::assume(if lower { val < old } else { val == old });
+        let mut f = frame::Settings::default();
+        f.set_initial_window_size(Some(val));
+        let mut task = any_waker_slot();
+        let r = s.apply_remote_settings(&f, &mut buffer, &mut store, &mut counts, &mut task);
+        let delta = val as i64 - old as i64;
+        assert!(s.init_window_sz() == val, "send.apply_remote_settings.new_streams_get_the_new_window");
+        if let Some(s1) = peek(&store, key) {
+            let (w1, av1) = raw(&s1.send_flow);
+            let (cw1, ca1) = prio_flow(send_prioritize(&s));
+            assert!(cw1 == cw0, "send.apply_remote_settings.connection_window_untouched");
+            if r.is_ok() {
+                if can_still_send {
+                    assert!(w1 as i64 == w0 as i64 + delta, "send.apply_remote_settings.stream_window_moves_by_delta");
+                } else {
+                    assert!(w1 as i64 == w0 as i64 + delta || w1 == w0, "send.apply_remote_settings.dead_stream_moved_or_skipped");
+                }
+                assert!(ca1 as i64 + av1 as i64 == ca0 as i64 + av0 as i64, "send.apply_remote_settings.pool_plus_stream_conserved");
+                assert!(av1 >= 0 && av1 as i64 <= (if w1 < 0 { 0 } else { w1 as i64 }) || !can_still_send, "send.apply_remote_settings.assigned_capacity_within_new_window");
+            }
+        }
+        kani::cover!(r.is_ok() && lower && can_still_send && w0 as i64 + delta < 0, "cover.window_goes_negative");
+        kani::cover!(r.is_ok() && lower && !can_still_send, "cover.dead_stream");
+        std::mem::forget(r);
+        forget_counts(counts);
+        std::mem::forget(store);
+        std::mem::forget(buffer);
+        std::mem::forget(s);
+    }
 }
